@@ -427,6 +427,27 @@ def dispatch(E, c, tc, args):
                 out.insert(k, (kx, x))
             d.items[:] = [x for _, x in out]
             return UNIT
+    msort = re.search(r"<impl \[(.*)\]>::sort$", c, re.S)
+    if msort and len(args) == 1:
+        # slice::sort: stable insertion sort driven by the element type's own Ord::cmp (executed from its MIR)
+        r = ref_chain(E, args[0])
+        d = E.read_ref(r)
+        if isinstance(d, VSeq):
+            ety = msort.group(1).strip()
+            out = []
+            for x in d.items:
+                k = len(out)
+                while k > 0:
+                    o_ = E.call("<%s as Ord>::cmp" % ety, [VRef(Cell(out[k - 1], "sort_a")), VRef(Cell(x, "sort_b"))])
+                    if isinstance(o_, VEnum) and o_.variant == "Greater":
+                        k -= 1
+                    elif isinstance(o_, VEnum):
+                        break
+                    else:
+                        raise Unsupported("Ord::cmp result %r" % (o_,))
+                out.insert(k, x)
+            d.items[:] = out
+            return UNIT
     if re.search(r"<impl \[.*\]>::sort_by::<", c, re.S) and len(args) == 2:
         # stable insertion sort driven by the real comparator closure (each comparison is executed; its outcome is a path decision)
         r = ref_chain(E, args[0])
